@@ -25,6 +25,8 @@ pub struct NetOpts {
     pub params: bool,
     pub base_speed: (f64, f64),
     pub tail_end_only: bool,
+    /// every grade in the forward direction is a downgrade (or level): a long descent that steepens and eases
+    pub descending: bool,
 }
 
 impl NetOpts {
@@ -43,6 +45,7 @@ impl NetOpts {
             params: rng.chance(0.3),
             base_speed: (6.0, 30.0),
             tail_end_only: false,
+            descending: false,
         }
     }
 }
@@ -153,12 +156,41 @@ pub fn gen_network(rng: &mut Rng, o: &NetOpts) -> Vec<Link> {
             offs.dedup();
             let mut elevs = vec![(0.0, start_elev)];
             for k in 1..offs.len() {
-                let g = if rng.chance(0.15) { 0.0 } else { rng.range(-o.grade_bound, o.grade_bound) };
+                let g = if rng.chance(0.15) {
+                    0.0
+                } else if o.descending {
+                    -rng.range(0.15, 1.0) * o.grade_bound
+                } else {
+                    rng.range(-o.grade_bound, o.grade_bound)
+                };
                 let e = elevs[k - 1].1 + g * (offs[k] - offs[k - 1]);
                 elevs.push((offs[k], Rng::round_sig(e, 8)));
             }
-            // sidings rejoin at the same elevation as their twin
+            // sidings rejoin at the same elevation as their twin - without leaving the grade bound: the second
+            // track's increments are scaled down to end where the first one ended, or, where that is not
+            // possible, replaced by one uniform grade (which is within the bound unless the second track is the
+            // shorter one; then the first track is re-levelled to what the second can reach)
             if prev.len() == 1 && next.len() == 1 && i == 1 + 3 * s + 2 {
+                let target = elev_end[i - 1] - start_elev;
+                let raw = elevs.last().unwrap().1 - start_elev;
+                let f = if raw != 0.0 { target / raw } else { f64::INFINITY };
+                if f.is_finite() && (0.0..=1.0).contains(&f) {
+                    for e in elevs.iter_mut() {
+                        e.1 = Rng::round_sig(start_elev + (e.1 - start_elev) * f, 8);
+                    }
+                } else {
+                    let reach = o.grade_bound * len;
+                    let t = target.clamp(-reach, reach);
+                    if t != target {
+                        // re-level the twin (already pushed as the previous geo): uniform grade to the reachable elevation
+                        if let Some(tw) = geos.last_mut() {
+                            let l = tw.len;
+                            tw.elevs = vec![(0.0, start_elev), (l, Rng::round_sig(start_elev + t, 8))];
+                            elev_end[i - 1] = tw.elevs[1].1;
+                        }
+                    }
+                    elevs = vec![(0.0, start_elev), (len, elev_end[i - 1])];
+                }
                 let last = elevs.len() - 1;
                 elevs[last].1 = elev_end[i - 1];
             }
